@@ -2,7 +2,7 @@
 # Build the framework from files on disk only (offline): Lean project + driver, warm the Go caches.
 set -e
 cd "$(dirname "$0")"
-export GOPROXY=off GOFLAGS=-mod=mod
+export GOPROXY=off
 mkdir -p out evidence
 (cd lean && lake build 2>&1 | tail -3)
 # warm the go build cache for the harness packages (errors here are reported by the checks themselves)
